@@ -200,4 +200,48 @@ theorem shrink_to_spec (E : Env) (m : Nat) (s : GS) :
         cases grow E m (s.A E) s with
         | mk r s' => cases r <;> simp
 
+/-- the handle repointed at the sentinel -/
+def _root_.MV.GS.reset (s : GS) : GS :=
+  { s with isDefault := true, len := 0, cap := 0, align := 0, acts := s.acts ++ [.reset] }
+
+theorem new_spec (E : Env) (s : GS) :
+    new E s = if E.c.elemSize > 0 then (.ok (), s.reset) else (.error .explicit, s) := by
+  unfold new
+  by_cases hz : E.c.elemSize > 0 <;> simp [GM.assert, hz, GM.resetBuf, GS.reset]
+
+theorem with_capacity_spec (E : Env) (n : Nat) (s : GS) :
+    with_capacity E n s =
+      if E.c.elemSize > 0 then reserve_exact E n s.reset else (.error .explicit, s) := by
+  unfold with_capacity
+  simp only [GM.bind_run, new_spec]
+  by_cases hz : E.c.elemSize > 0
+  · simp only [hz, if_true]
+    cases reserve_exact E n s.reset with
+    | mk r s' => cases r <;> rfl
+  · simp only [hz, if_false]
+
+theorem with_alignment_spec (E : Env) (n a : Nat) (s : GS) :
+    with_alignment E n a s =
+      if a < max E.c.elemAlign hdrAlign then (.ok (.error .AlignmentTooSmall), s)
+      else if isPow2 a = false then (.ok (.error .AlignmentNotDivisibleByTwo), s)
+      else if E.c.elemSize > 0 then
+        (match grow E n a s.reset with
+         | (.ok _, s') => (.ok (.ok ()), s')
+         | (.error p, s') => (.error p, s'))
+      else (.error .explicit, s) := by
+  unfold with_alignment
+  simp only [GM.bind_run, GM.liftE_run, max_align_eq, GM.ite_run, decide_eq_true_eq, GM.pure_run, new_spec]
+  by_cases h1 : a < max E.c.elemAlign hdrAlign
+  · simp [h1]
+  · simp only [h1, if_false]
+    cases hp : isPow2 a with
+    | false => simp
+    | true =>
+      simp only [Bool.not_true, Bool.false_eq_true, if_false]
+      by_cases hz : E.c.elemSize > 0
+      · simp only [hz, if_true]
+        cases grow E n a s.reset with
+        | mk r s' => cases r <;> rfl
+      · simp [hz]
+
 end MV.Gen
